@@ -77,6 +77,7 @@ func runPipeBLabelled(label string, bseed uint64) string {
 		node := cl.Nodes[ip]
 		g := newGate(ks, cfg.auth)
 		g.auto[1] = true
+		g.cerr = cerrSel(int(bseed % 3)) // one scenario in three: every transport's Close reports an error, one in three: the odd ones
 		gates[ip] = g
 		hr := vh.NewRng(bseed*31 + uint64(hi) + 1)
 		fates := map[int]*bFate{}
